@@ -241,3 +241,14 @@ Proof.
   rewrite deliver_app. fold T1.
   repeat split; auto. specialize (F1 Hm). lia.
 Qed.
+
+Lemma update_info_requests tid pv_prev evs r fs rest :
+  update_info tid pv_prev evs = (r, fs, rest) ->
+  (1 <= length (filter (fun f => zlist_eqb f (get_info_frame tid)) fs) <= 6)%nat.
+Proof.
+  unfold update_info. destruct (ui_loop tid pv_prev 0 evs) as [[r' fs'] rest'] eqn:E.
+  intros [= _ <- _]. pose proof (ui_loop_requests _ _ _ 0 _ _ _ ltac:(lia) E) as H.
+  change (Z.to_nat ((119 - 0) / 20)) with 5%nat in H.
+  cbn [filter]. assert (Hq : zlist_eqb (get_info_frame tid) (get_info_frame tid) = true) by (now apply zlist_eqb_spec).
+  rewrite Hq. cbn [length]. lia.
+Qed.
